@@ -23,3 +23,19 @@ echo "$T" | while read seed demo run; do
   if [ $# -gt 0 ]; then case " $* " in *" $seed "*) ;; *) continue;; esac; fi
   /verif/tools/confirm_seed.sh $seed 809b9c4 demo/$demo tests/zz_seeded_test.go ./tests/ $run
 done
+# wave 3 (appended): different demo destinations handled explicitly
+if [ $# -eq 0 ] || [ "$1" = "wave3" ]; then
+for row in "C01-3 seed_c01_loadmore_test.go.txt TestSeedC01SameEntriesSameDocuments" \
+ "C11-3 c11_timeouts_test.go.txt TestC11LoadTimeoutsDoNotWedgeReplication" \
+ "C01-4 seed_c01b_docs_converge_test.go.txt TestSeedC01bDocsConvergeOnConcurrentPut" \
+ "C19-3 c19_snapshot_status_test.go.txt TestC19SnapshotReloadStatus" \
+ "C18-3 seed_c18_close_after_cancel_test.go.txt TestSeedC18CloseAfterParentContextCancelled" \
+ "C18-4 close_midload_test.go.txt TestSeedCloseWhileLoadBlocked" \
+ "C17-3 c17_concurrent_writers_restart_test.go.txt TestC17ConcurrentWritersSurviveRestart" \
+ "C02-4 c02b_reexchange_demo_test.go.txt TestC02bHeadsResentOnRejoin" \
+ "C05-4 seed_c05b_failed_reopen_test.go.txt TestSeedC05bFailedReopenKeepsAcknowledgedWrites"; do
+  set -- $row
+  /verif/tools/confirm_seed.sh $1 809b9c4 demo/$2 tests/zz_seeded_test.go ./tests/ $3
+done
+/verif/tools/confirm_seed.sh C20-3 809b9c4 demo/concurrent_connect_test.go.txt pubsub/oneonone/zz_seeded_test.go ./pubsub/oneonone/ TestOneOnOneConcurrentConnectDeliversOnce
+fi
